@@ -44,4 +44,14 @@ PROPS = {
         "explanation": "Theorems C09_* + bit-exact correspondence of all observables; oracle = dense IEEE recomputation and exact-integer KBN bound.",
         "assumptions": ["amd64 float64 arithmetic = Coq primitive floats (IEEE binary64, round to nearest even, no FMA contraction)"],
     },
+    "C05": {
+        "level_text": "Machine-checked theorems for every scalar instance and every (minIterations, maxIterations, checkFreq, fixed count, flat-tail) configuration: invalid parameters are rejected before the loop is entered; an accepted call returns exactly the k-th iterate where k is the least scheduled check at which delta (change since the previous scheduled check) <= epsilon and the flat-tail criterion hold, or the iteration limit, whichever comes first; WithIterations(n) gives exactly n; a limit below the first check wins. The termination bound ceil(ln(e/4)/ln(1-a))+2 is proved over the reals in C01's contraction layer for the exact recurrence (see Props/C01.v) and is PARTIAL for binary64: decided per run (observed iterations against the bound; divergence must surface as an error, watchdog must never fire).",
+        "level_note": "Trusted: Coq kernel + vm_compute + FloatAxioms; hand-written model of Compute (poll points of the context are not part of this model: C07); harness reads the iteration count from the debug log record 'finished'. Termination of the binary64 iteration for every finite input is not a theorem.",
+        "technique": "Coq proof (loop invariant by induction on fuel; closed form of the previous scheduled check) + bit-exact correspondence by vm_compute",
+        "families": ["C05"],
+        "go_tests": "^TestD6OverflowTerminates$",
+        "rule": "bounded-exhaustive schedules: all (min,max,freq) in {absent,-1,0,1,2,3,5,7}x{absent,-1,0,1,2,3,6,10}x{absent,-1,0,1,2,3,5} (more values in thorough) on 2 (6) canonical graphs with two (alpha,epsilon) settings, half of the min=max combinations through WithIterations; all pairs of 15 invalid-parameter mutations; random canonical graphs (9 families, n 1..12, 15% with a row whose sum overflows) under the default schedule against the documented iteration bound. Non-trivial = the run performed at least one iteration; distinct = distinct input.",
+        "explanation": "Theorems C05_* + bit-exact correspondence (result vector, iteration count, error class); oracle = the declarative stopping rule (X, D, sched) evaluated on the observed outcome, and the iteration bound.",
+        "assumptions": ["the debug log record 'finished' reports the loop counter"],
+    },
 }
